@@ -72,15 +72,15 @@ var registry = map[string]propCfg{
 		Assumptions: poolAssumptions, Components: poolComponents,
 	},
 	"C01": chainProp("one case = a seeded block stream (transfers of every amount class incl. bad signatures, IBTP requests/receipts with valid/duplicate/skipped/zero/huge/old indices, timeouts, invalid proofs, wrong senders, empty blocks; lifecycle operations and votes, requests to services that do not exist or are registered during the run, one-to-many groups, mutated transactions, direct contract calls, Ethereum-format transactions (transfers, rejected-before-execution shapes, failing contract creations), pairs inside one appchain incl. a service calling itself; drawn genesis: 1-4 admins of weight 2 or 1, gas price, audit on/off; blocks cut at random or filled to the sequencer limit) executed on 3-4 independent replicas that differ in proof-verification mode, LRU sizes, stop/reopen points and, on a third of them, a stalled state store with a concurrent reader (every key and account the block changed is read through the read-write ledger while the block is flushed but not committed); after every block block hash, all roots, every marshalled receipt, the delivery metadata and the whole state store are compared byte for byte", 1200, 60000),
-	"C02": chainProp("one case = a seeded block stream dominated by IBTP requests/receipts over several ordered service pairs with next/duplicate/skipped/zero/huge/old indices, invalid proofs, wrong senders, destinations that do not exist / are frozen, logged out or registered during the run (lifecycle operations and votes in between) and unrelated transfers, audit on/off; a history oracle over receipts (accepted := receipt SUCCESS) checks index order, exactly-once acceptance, counters returned by the interchain query on both sides, delivery-set membership both in the block metadata and in what the real internal/router hands to each chain's pier for that height, and (twin replica) that rejected IBTPs change nothing", 2400, 80000),
+	"C02": chainProp("one case = a seeded block stream dominated by IBTP requests/receipts over several ordered service pairs with next/duplicate/skipped/zero/huge/old indices, invalid proofs, wrong senders, destinations that do not exist / are frozen, logged out or registered during the run (lifecycle operations and votes in between) and unrelated transfers, audit on/off; a history oracle over receipts (accepted := receipt SUCCESS) checks index order, exactly-once acceptance, counters returned by the interchain query on both sides, delivery-set membership both in the block metadata and in what the real internal/router hands to each chain's pier for that height, and (twin replica) that rejected IBTPs change nothing", 4000, 80000),
 	"C03": chainProp("one case = a seeded block stream of IBTPs against appchains bound to a drawn master rule (Happy, a WASM rule accepting iff proof[0]&1, FabricSim with garbage proofs) and, optionally, IBTPs relayed from another BitXHub with n in {1,3,4,7} registered validators signed by 0..n+1 distinct/duplicate/unregistered keys, the validator set being replaced through governance during some runs (the set in force is read back after every block); in half of the runs the rule lifecycle runs too (a further rule registered, the master rule updated through governance with an approving or rejecting vote, rules logged out; the master rule in force is read back after every block and proofs judged in a block that changed it get no verdict); proofs valid, refused by the rule (plain false or error), absent or hash-mismatched; the same IBTPs also submitted as plain invocations of HandleIBTPData/HandleIBTP by outsiders, chain admins and governance admins; the harness judges validity itself (hash matches and rule predicate by construction, or distinct registered signers > (n-1)/3): invalid => receipt FAILED and (twin replica) no state change, a plain invocation never processes an IBTP, and verification never kills the node (worker death is attributed to the run)", 800, 80000),
-	"C15": chainProp("one case = a seeded block stream of governance operations (freeze/activate/logout of appchains and services by the permitted and by wrong roles), votes (approve/reject/garbage; by every administrator, by non-administrators, repeated, on open, finished and unknown proposals) and IBTP traffic, under 1-4 administrators (admin 0 a super administrator, the others of weight 2 or 1) and a drawn strategy expression (a > 0.5*t, a >= t, a >= 1, a - r >= 2, a >= 0.75*t); an independent tally of the accepted votes is compared with GetProposal after every block: one counted vote per administrator, no vote by non-administrators / on finished proposals / with garbage, approved => the recorded expression holds for the distinct approvers (evaluated by the harness with govaluate against the initial or the available electorate), rejected by tally => approval unreachable, special proposals need a super administrator's vote, and a concluded proposal record never changes again", 2400, 80000),
-	"C16": chainProp("one case = a seeded block stream interleaving lifecycle operations (freeze/activate/logout, registration of a further service per chain during the run) and votes on appchains and services with IBTP requests/receipts before, during and after each transition; after every block the status of every appchain and service is read through GetAppchain/GetServiceInfo and checked: a status changes only in a block containing a successful operation on the object, a concluding vote on it or an operation on its appchain; forbidden is absorbing; a frozen or logged-out appchain has no usable service; in blocks without governance transactions a request from a service whose status is frozen/forbidden/pause/registering/unavailable or that is not registered is never accepted and one to such a destination is never recorded for execution (rejected or begin-failed)", 2400, 80000),
-	"C17": chainProp("one case = a seeded block stream of direct invocations of contract methods, the dispatch surface being enumerated by reflection over the contracts the executor registered (every exported method incl. methods promoted from the embedded stub; counted in the evidence), called by an outsider, the chain's admin, another chain's admin, a governance admin and the node account, with arguments typed by the method signature and drawn from the run's live identifiers and garbage, audit on/off, interleaved with IBTP traffic; oracles: methods the statement reserves for contract-to-contract use must fail, chain-admin/governance-admin operations must fail for an outsider, and (twin replica, for failed and successful calls alike) refused calls change nothing, read methods write nothing, and no outsider call changes existing interchain counters or records", 2400, 80000),
-	"C04": chainProp("one case = a seeded block stream of one-to-one IBTP traffic with receipts success/failure/rollback, timeouts 0..5 blocks, receipts before, in and after the expiry block and after final states, empty blocks; a reference status machine written from the statement is folded over the accepted events and block heights and compared with GetStatus after every block", 2400, 80000),
-	"C05": chainProp("one case = a seeded block stream with one-to-many groups of 2-4 children declared over one or two destination chains (3 appchains), children begun and reported in any order, with success/failure/rollback receipts, group timeouts 0/2/3/5, duplicate and late child messages, several groups interleaved and one-to-one traffic in between; a reference group model from the statement is compared after every block with the stored group record (global and child statuses), with the block's multi-transaction and timeout notification sets (missing and spurious entries) and with what the real internal/router hands to each chain's pier", 2400, 80000),
-	"C06": chainProp("one case = a seeded block stream of one-to-one IBTP traffic with timeouts T in {0,1,2,3,5,2^62,-1} and receipts around H+T; one-to-many groups with timeouts on a disjoint set of source services; after every block the per-chain timeout notification sets (block metadata and what the real internal/router hands to the piers) and the statuses are compared with a reference expiry model, groups as a whole with the group model", 2400, 80000),
-	"C07": chainProp("one case = a seeded mixed block stream; for every block one FAILED transaction (rotating) is replaced on a twin replica by an empty transaction of the same sender and nonce and the two resulting state stores are compared key by key (only the sender's and the admins' balances may differ, by exactly the fee difference); later receipts must be equal and the failed transaction must not appear in the delivery set; the twin is then brought to the real block through the executor's rollback path", 2400, 80000),
+	"C15": chainProp("one case = a seeded block stream of governance operations (freeze/activate/logout of appchains and services by the permitted and by wrong roles), votes (approve/reject/garbage; by every administrator, by non-administrators, repeated, on open, finished and unknown proposals) and IBTP traffic, under 1-4 administrators (admin 0 a super administrator, the others of weight 2 or 1) and a drawn strategy expression (a > 0.5*t, a >= t, a >= 1, a - r >= 2, a >= 0.75*t); an independent tally of the accepted votes is compared with GetProposal after every block: one counted vote per administrator, no vote by non-administrators / on finished proposals / with garbage, approved => the recorded expression holds for the distinct approvers (evaluated by the harness with govaluate against the initial or the available electorate), rejected by tally => approval unreachable, special proposals need a super administrator's vote, and a concluded proposal record never changes again", 8000, 80000),
+	"C16": chainProp("one case = a seeded block stream interleaving lifecycle operations (freeze/activate/logout, registration of a further service per chain during the run) and votes on appchains and services with IBTP requests/receipts before, during and after each transition; after every block the status of every appchain and service is read through GetAppchain/GetServiceInfo and checked: a status changes only in a block containing a successful operation on the object, a concluding vote on it or an operation on its appchain; forbidden is absorbing; a frozen or logged-out appchain has no usable service; in blocks without governance transactions a request from a service whose status is frozen/forbidden/pause/registering/unavailable or that is not registered is never accepted and one to such a destination is never recorded for execution (rejected or begin-failed)", 6000, 80000),
+	"C17": chainProp("one case = a seeded block stream of direct invocations of contract methods, the dispatch surface being enumerated by reflection over the contracts the executor registered (every exported method incl. methods promoted from the embedded stub; counted in the evidence), called by an outsider, the chain's admin, another chain's admin, a governance admin and the node account, with arguments typed by the method signature and drawn from the run's live identifiers and garbage, audit on/off, interleaved with IBTP traffic; oracles: methods the statement reserves for contract-to-contract use must fail, chain-admin/governance-admin operations must fail for an outsider, and (twin replica, for failed and successful calls alike) refused calls change nothing, read methods write nothing, and no outsider call changes existing interchain counters or records", 6000, 80000),
+	"C04": chainProp("one case = a seeded block stream of one-to-one IBTP traffic with receipts success/failure/rollback, timeouts 0..5 blocks, receipts before, in and after the expiry block and after final states, empty blocks; a reference status machine written from the statement is folded over the accepted events and block heights and compared with GetStatus after every block", 4000, 80000),
+	"C05": chainProp("one case = a seeded block stream with one-to-many groups of 2-4 children declared over one or two destination chains (3 appchains), children begun and reported in any order, with success/failure/rollback receipts, group timeouts 0/2/3/5, duplicate and late child messages, several groups interleaved and one-to-one traffic in between; a reference group model from the statement is compared after every block with the stored group record (global and child statuses), with the block's multi-transaction and timeout notification sets (missing and spurious entries) and with what the real internal/router hands to each chain's pier", 4000, 80000),
+	"C06": chainProp("one case = a seeded block stream of one-to-one IBTP traffic with timeouts T in {0,1,2,3,5,2^62,-1} and receipts around H+T; one-to-many groups with timeouts on a disjoint set of source services; after every block the per-chain timeout notification sets (block metadata and what the real internal/router hands to the piers) and the statuses are compared with a reference expiry model, groups as a whole with the group model", 4000, 80000),
+	"C07": chainProp("one case = a seeded mixed block stream; for every block one FAILED transaction (rotating) is replaced on a twin replica by an empty transaction of the same sender and nonce and the two resulting state stores are compared key by key (only the sender's and the admins' balances may differ, by exactly the fee difference); later receipts must be equal and the failed transaction must not appear in the delivery set; the twin is then brought to the real block through the executor's rollback path", 4000, 80000),
 	"C08": chainProp("one case = a seeded block stream of (a) structure- and byte-level mutations of well-formed transactions (nil/junk/truncated/oversized payloads, unknown transaction and VM types, nil or unknown destination, unknown methods, malformed service and IBTP identifiers, extreme indices and timeouts, junk IBTP types, mismatched or empty groups, junk proofs, junk or truncated WASM modules) and (b) direct calls of every reflection-enumerated contract method with typed arbitrary argument vectors (incl. wrong counts and types) and, for 15 multi-argument governance operations, argument vectors that pass the entry checks with exactly one argument perturbed (near-miss addresses, types, expressions), by all roles, at any block position, mixed with valid traffic one-to-many groups (begin, success/failure/rollback receipts) and Ethereum-format transactions (incl. ones the EVM turns down before they run), some chains bound to WASM/FabricSim rules; oracle: one receipt per transaction in order, next height, an executed event within the watchdog (wedge), and the worker process survives (an un-recovered panic in a node goroutine kills it; the controller attributes the death to the announced run, resumes behind it and minimises the plan with one process per candidate)", 800, 80000),
 	"C14": chainProp("one case = a seeded block stream with, in 40% of the runs, registrations of new governance administrators and the audit-administrator cycle (two audit nodes, an audit administrator bound to one, that node logged out, the administrator bound to the other; every operation approved by all administrators), dominated by transfers (0, 1, small, exact balance, balance+1, 2^256, non-numeric, negative; self transfers; to admins and contract-less accounts; bad signatures; gas price 0/1/50000; 1-4 admins) with single-transaction blocks mixed in; after every block the sum of all balances in the state store must not grow beyond the documented grant (the genesis balance once per governance or audit administrator seen available for the first time, read back through GetAllRoles), no balance is negative, and for single-transfer blocks sender/receiver/fee/admin-split accounting is exact", 3000, 100000),
 	"C20": {
